@@ -57,3 +57,15 @@ def register(w):
         assumes=['no override is registered for the argument types (registries are empty by default)',
                  'the result object of the builtin is returned as it is (same laziness)']))
 
+
+  # property C13 ("everything else is called as it is") / C14: the overload of a builtin is chosen by the IDENTITY of
+  # the function -- membership in SUPPORTED_BUILTINS -- never by its name alone: a callable that is not one of the
+  # supported builtins is returned unchanged, whatever its __name__.
+  w.global_objects[B + 'SUPPORTED_BUILTINS'] = 'Set[Any]'
+  w.global_objects[B + 'BUILTIN_FUNCTIONS_MAP'] = 'Dict[Any,Any]'
+  w.add(Contract(
+      B + 'overload_of', serves=['C13', 'C14'], types={'f': 'Any'}, modifies=[],
+      raises={'KeyError': 'f in SUPPORTED_BUILTINS and not (f.__name__ in BUILTIN_FUNCTIONS_MAP)'},
+      ensures=['implies(not (f in SUPPORTED_BUILTINS), result is f)',
+               'implies(f in SUPPORTED_BUILTINS, result is BUILTIN_FUNCTIONS_MAP[f.__name__])'],
+      assumes=['T: the tuple SUPPORTED_BUILTINS is modelled as a set (membership only); builtins compare by identity']))
